@@ -209,7 +209,7 @@ print(json.dumps(out.get("ok", out.get("raise"))))
 '''
 
 
-def hash_seed_probe(case, seeds=(0, 1, 2, 3, 4, 5, 6, 7)):
+def hash_seed_probe(case, seeds=tuple(range(32))):
     """the inference function on one input in fresh processes under several PYTHONHASHSEED values: the distinct results"""
     import json
     procs = []
